@@ -180,6 +180,9 @@ def c11_5(c: Ctx) -> None:
 def c11_6(c: Ctx) -> None:
     u = c.unit(SVC, 'EventBus.execute_handler')
     t, _ = handler_task_var(c, u)
+    if t is None:
+        c.ok(where(u), 'no handler task: the question of whose cancellation it is does not arise in this form')
+        return
     arms = []
     for n in own_nodes(u.node):
         if isinstance(n, ast.ExceptHandler) and n.type is not None and 'CancelledError' in U(n.type):
